@@ -147,6 +147,9 @@ func funcNud(p *parser, t *token) *token {
 
 func returnNud(p *parser, t *token) *token {
 	for p.Token.Symbol != "}" && p.Token.Symbol != ";" && p.Token.Symbol != "case" && p.Token.Symbol != "default" {
+		if len(t.Tokens) == 0 && p.Token.Pos.Line != t.Pos.Line {
+			break // a line break directly after "return" ends the statement, as Go's semicolon insertion does
+		}
 		t.Append(p.Expression(commaBP))
 		if p.Token.Symbol != "," {
 			break
